@@ -132,6 +132,8 @@ fn type_answers(a: &Type, b: &Type) -> Vec<(&'static str, String)> {
         ("min_tuple_len", g(&|| format!("{:?}", a.min_tuple_len()))),
         ("iter_element", g(&|| c(a.iter_element()))),
         ("tuple_element_at", g(&|| c(a.tuple_element_at(0)))),
+        ("tuple_element_at(1)", g(&|| c(a.tuple_element_at(1)))),
+        ("tuple_element_at(2)", g(&|| c(a.tuple_element_at(2)))),
         ("field_type", g(&|| c(a.field_type("a")))),
         ("has_field", g(&|| a.has_field("a").to_string())),
         ("flatten_tuple", g(&|| a.clone().flatten_tuple().map_or("None".to_string(), |ts| ts.iter().map(|t| Ty::from_real(t).text()).collect::<Vec<_>>().join(",")))),
@@ -306,8 +308,14 @@ pub fn run(cfg: &Cfg, rep: &mut Report) {
                 Ty::Tup(vec![Ty::Int, Ty::Any]), Ty::Tup(vec![Ty::Any, Ty::Int]), Ty::Tup(vec![Ty::Int, Ty::Int, Ty::Int]), Ty::Struct(st), Ty::Struct(st2),
                 Ty::mutc(Ty::Any), Ty::mutc(Ty::Int), Ty::mutc(Ty::union([Ty::Int, Ty::Any])),
             ];
-            let n = 2 + rng.below(2);
-            let a = Ty::union((0..n).map(|_| rng.pick(&shapes).clone()).collect::<Vec<_>>());
+            // one kind at a time, too: three or four tuples of different lengths, iterators of different elements, ...
+            let tuples: Vec<Ty> = vec![
+                Ty::Tup(vec![Ty::Int, Ty::Int]), Ty::Tup(vec![Ty::Float, Ty::Float, Ty::Float]), Ty::Tup(vec![Ty::Int, Ty::Int, Ty::Int]), Ty::Tup(vec![Ty::Str, Ty::Int, Ty::Int, Ty::Int]),
+                Ty::Tup(vec![Ty::Any, Ty::Str]), Ty::Tup(vec![Ty::Bool; 5]), Ty::Tup(vec![Ty::Int, Ty::Str, Ty::Float]), Ty::Tup(vec![Ty::Void, Ty::Void]),
+            ];
+            let pool: &Vec<Ty> = if rng.chance(1, 3) { &tuples } else { &shapes };
+            let n = 2 + rng.below(3);
+            let a = Ty::union((0..n).map(|_| rng.pick(pool).clone()).collect::<Vec<_>>());
             let b = if rng.chance(1, 2) { rng.pick(&shapes).clone() } else { a.clone() };
             (a, b)
         } else {
